@@ -10,7 +10,7 @@ position).  Not decided: actual virtual times.
 import ast
 
 from ..model import self_attr, unparse, walk_body_shallow
-from .util import at, expand, const_value, fold, path_values, call_name, call_recv, calls_in, need, node_assign_value, node_writes_attr, norm, where
+from .util import value_origins, at, expand, const_value, fold, path_values, call_name, call_recv, calls_in, need, node_assign_value, node_writes_attr, norm, where
 
 TECHNIQUE = "symbolic comparator on the back-off and buffer kernels, guard-fact dominance of limit and policy arms"
 EXPLANATION = (
@@ -62,12 +62,14 @@ def run(ctx):
     upd = [n for n in cf.nodes if node_assign_value(n, "retry_delay") is not None]
     cl = [(n, c) for n in cf.nodes for c in n.calls() if call_name(c) == "callLater"]
     need(len(upd) == 1 and len(cl) == 1, "fetch back-off kernel not found in _retry_fetch")
-    k = _min_kernel(prog, rf, node_assign_value(upd[0], "retry_delay"), "self.retry_delay")
+    k = _min_kernel(prog, rf, at(ctx, rf, upd[0].id, node_assign_value(upd[0], "retry_delay")), "self.retry_delay")
     delay_arg = cl[0][1].args[0]
-    reads = [n for n in cf.nodes if n.kind == "stmt" and isinstance(n.stmt, ast.Assign) and unparse(
-        n.stmt.targets[0]) == norm(delay_arg) and norm(n.stmt.value) == "self.retry_delay"]
+    # the delay handed to the timer is the caller's explicit delay or the value retry_delay had *before* the update
+    og = value_origins(cf, cl[0][0].id, delay_arg, params=rf.params) or []
+    reads = [(n_, e) for n_, e in og if norm(e) == "self.retry_delay"]
+    others = [(n_, e) for n_, e in og if norm(e) != "self.retry_delay" and not (isinstance(e, ast.Name) and e.id in rf.params)]
     ok = (k is not None and isinstance(k[0], (int, float)) and k[0] > 1 and k[1] == "self.retry_max_delay"
-          and len(reads) == 1 and upd[0].id in cf.reach([reads[0].id]) and reads[0].id not in cf.reach([upd[0].id])
+          and bool(reads) and not others and all(upd[0].id in cf.reach([n_]) and n_ not in cf.reach([upd[0].id]) for n_, e in reads)
           and cl[0][0].id in cf.reach([upd[0].id]))
     r.check(ok, "%s#kernel" % rf.qname, "fetch retry delay is not `current`, followed by current = min(current*F, max) "
             "with F > 1 (found %s)" % (k,), where(rf, upd[0].stmt), "delays do not grow geometrically / exceed the cap",
